@@ -220,7 +220,7 @@ Qed.
 
 Theorem add_days_until r n D :
   is_date r -> date_days r = Ok D ->
-  (0 <= D /\ 0 <= D + n < 11960320) \/ (D < 0 /\ -11960685 < D + n <= -365) ->
+  0 <= D + n < 11960320 \/ -11960685 < D + n <= -365 ->
   exists r', add_days r n = Ok r' /\ is_date r' /\ date_days r' = Ok (D + n) /\ days_until r r' = Ok n.
 Proof.
   intros Hd HD Hside.
